@@ -17,6 +17,7 @@ package topologyaware
 import (
 	"errors"
 	"fmt"
+	"reflect"
 
 	"github.com/containers/nri-plugins/pkg/utils/cpuset"
 	"k8s.io/apimachinery/pkg/api/resource"
@@ -66,6 +67,7 @@ type policy struct {
 	cpuAllocator cpuallocator.CPUAllocator // CPU allocator used by the policy
 	memAllocator *libmem.Allocator
 	metrics      *TopologyAwareMetrics
+	rebuild      bool // rebuild allocations even if the configuration is unchanged
 }
 
 var opt = &cfgapi.Config{}
@@ -498,37 +500,51 @@ func (p *policy) Reconfigure(newCfg interface{}) error {
 
 	log.Infof("updated configuration: %+v", cfg)
 
+	if !p.rebuild && reflect.DeepEqual(cfg, p.cfg) {
+		log.Info("no configuration changes")
+		return nil
+	}
+
 	savedPolicy := *p
 	allocations := savedPolicy.allocations.clone()
+
+	// restore puts back the saved policy and the package-level options.
+	// If existing allocations may have been touched, the next (reverting)
+	// reconfiguration must rebuild them even for an unchanged configuration.
+	restore := func(rebuild bool) {
+		*p = savedPolicy
+		p.rebuild = rebuild
+		opt = p.cfg
+		defaultPrio = p.cfg.DefaultCPUPriority.Value()
+	}
 
 	opt = cfg
 	p.cfg = cfg
 	defaultPrio = cfg.DefaultCPUPriority.Value()
 
 	if err := p.initialize(); err != nil {
-		*p = savedPolicy
+		restore(false)
 		return policyError("failed to reconfigure: %v", err)
 	}
 
 	if err := p.registerImplicitAffinities(); err != nil {
+		restore(false)
 		return policyError("failed to reconfigure: %v", err)
 	}
 
 	for _, grant := range allocations.grants {
 		if err := grant.RefetchNodes(); err != nil {
-			*p = savedPolicy
-			opt = p.cfg
-			defaultPrio = p.cfg.DefaultCPUPriority.Value()
+			restore(false)
 			return policyError("failed to reconfigure: %v", err)
 		}
 	}
 
 	log.Warn("updating existing allocations...")
 	if err := p.restoreAllocations(&allocations); err != nil {
-		*p = savedPolicy
-		opt = p.cfg
+		restore(true)
 		return policyError("failed to reconfigure: %v", err)
 	}
+	p.rebuild = false
 
 	p.root.Dump("<post-config>")
 	p.checkAllocations("  <post-config>")
